@@ -48,6 +48,7 @@ type c13Stats struct {
 	sweepCases   int
 	tornSweeps   int
 	tinyInputs   int
+	matrixInputs int
 	maxStressTicks int64
 	maxStressWhat  string
 }
@@ -200,6 +201,7 @@ func checkC13(r *Run) error {
 		"single_fault_sweeps": map[string]any{"worlds_swept": st.sweptWorlds, "cases": st.sweepCases,
 			"meaning": "for each swept world every recorded I/O call index x every applicable fault kind was executed once"},
 		"torn_prefix_sweeps": st.tornSweeps,
+		"operand_matrix": map[string]any{"programs": st.matrixInputs, "exhaustive_over": "every expression slot of every statement form, builtin, return position (also nested in if/for/switch inside functions) x 35 operand kinds (void/single/multi-value calls, app calls, slices, nil, literals, undefined names, parenthesised variants) x placement at top level / inside a function, both targets"},
 		"tiny_input_enumeration": map[string]any{"inputs": st.tinyInputs, "exhaustive_over": "every single byte, every vocabulary token, every ordered pair of vocabulary tokens with and without a separating blank (thorough: plus all triples over a 30-token vocabulary) as the whole main file"},
 	}
 	extra := map[string]any{
@@ -250,6 +252,8 @@ func c13Tiny(r *Run, st *c13Stats) error {
 			inputs = append(inputs, a+b, a+" "+b)
 		}
 	}
+	nTiny := len(inputs)
+	inputs = append(inputs, gen.OperandMatrix()...)
 	if r.Tier == "thorough" {
 		small := []string{"x", "f", "(", ")", "{", "}", "[", "]", "\n", ",", ":=", "=", "func", "var", "if", "for", "switch", "case", "return", "import", "\"", "1", "@", "|", ".", "int", "range", ";", "+", "!"}
 		for _, a := range small {
@@ -267,8 +271,17 @@ func c13Tiny(r *Run, st *c13Stats) error {
 			Cwd: "/sim/m", Exe: "/sim/x/tsh", MapMode: "canonical", Budgets: &b}
 		cases[i] = c13Case{c: simrt.Case{World: spec, Path: "/sim/m/main.tsh", Target: []string{"bash", "batch"}[i%2]}, meta: c13Meta{Shape: "tiny", Corrupt: "enumerated", Family: "tiny-enumeration", NFiles: 1}}
 	}
+	// the operand matrix is run for both targets (converter back ends differ)
+	for i := nTiny; i < len(inputs) && i < nTiny+len(gen.OperandMatrix()); i++ {
+		c := cases[i]
+		c.c.Target = map[string]string{"bash": "batch", "batch": "bash"}[c.c.Target]
+		c.meta.Family = "operand-matrix"
+		cases[i].meta.Family = "operand-matrix"
+		cases = append(cases, c)
+	}
 	_, err := c13Exec(r, st, cases)
-	st.tinyInputs = len(inputs)
+	st.tinyInputs = nTiny
+	st.matrixInputs = len(gen.OperandMatrix())
 	return err
 }
 
